@@ -93,6 +93,12 @@ pub fn catch<T>(f: impl FnOnce() -> T) -> Result<T, String> {
         else { "panic".to_string() }
     })
 }
+/// Breadcrumb: the input about to be handed to the implementation, written to the file named by
+/// `$VH_CRUMB`. If the implementation then aborts the whole process (a non-unwinding panic, a
+/// failed `unsafe` precondition check, a signal), the check still knows which input it was.
+pub fn crumb(s: &str) {
+    if let Ok(p) = std::env::var("VH_CRUMB") { let _ = std::fs::write(p, s); }
+}
 pub fn silence_panics() { std::panic::set_hook(Box::new(|i| { if !IN_CATCH.with(|c| c.get()) { eprintln!("harness panic: {}", i); } })); }
 
 pub struct Opts { pub tier: String, pub seed: u64, pub out: PathBuf, pub only: Option<usize>, pub release: bool }
